@@ -160,10 +160,10 @@ Lemma get_type_go_equiv :
   get_type_go_recognised = true ->
   forall k a b, consistent_spec k = true -> get_type_go k a b = get_type (Some k) (a && b).
 Proof.
-  intros Hrec. first [ discriminate Hrec | idtac ].
-  intros k a b Hc. unfold consistent_spec in Hc. unfold get_type_go, get_type.
-  change never_touch with 1%Z. change always_touch with 2%Z. change cached_touch with 3%Z.
-  destruct (isNonce k), (isFF k), (isHW k), (isHeadless k), a, b;
+  intros Hrec. try discriminate Hrec.
+  all: intros k a b Hc; unfold consistent_spec in Hc; unfold get_type_go, get_type;
+    change never_touch with 1%Z; change always_touch with 2%Z; change cached_touch with 3%Z;
+    destruct (isNonce k), (isFF k), (isHW k), (isHeadless k), a, b;
     cbn [andb negb orb implb] in Hc |- *; try discriminate Hc; try reflexivity;
     destruct (Z.eqb_spec (touch k) 3), (Z.eqb_spec (touch k) 2), (Z.eqb_spec (touch k) 1);
     cbn [andb negb orb] in Hc |- *; try discriminate Hc; try reflexivity; lia.
@@ -173,8 +173,8 @@ Lemma get_principals_go_equiv :
   get_principals_go_recognised = true ->
   forall ps ty, get_principals_go ps ty = get_principals ps ty.
 Proof.
-  intros Hrec. first [ discriminate Hrec | idtac ].
-  intros ps ty. unfold get_principals_go, get_principals.
-  destruct (Z.eqb ty t_unknown), (Z.eqb ty t_touch_sudo), (Z.eqb ty t_touchless_sudo),
-           (Z.eqb ty t_touchless); reflexivity.
+  intros Hrec. try discriminate Hrec.
+  all: intros ps ty; unfold get_principals_go, get_principals;
+    destruct (Z.eqb ty t_unknown), (Z.eqb ty t_touch_sudo), (Z.eqb ty t_touchless_sudo),
+             (Z.eqb ty t_touchless); reflexivity.
 Qed.
